@@ -130,7 +130,10 @@ impl<'a, T: FontRead<'a> + VarSize> VarLenArray<'a, T> {
         for _ in 0..idx {
             pos = pos.checked_add(T::read_len_at(self.data, pos)?)?;
         }
-        self.data.split_off(pos).map(T::read)
+        // read exactly one item: `None` at the end of the data (as `iter` does) and never the
+        // whole remainder (item types such as `ScriptLangTag` parse everything they are given)
+        let len = T::read_len_at(self.data, pos)?;
+        self.data.slice(pos..pos.checked_add(len)?).map(T::read)
     }
 
     /// Return an iterator over this array's items.
